@@ -406,6 +406,24 @@ func TestCheck(t *testing.T) {
 		})
 	})
 
+	// Phase F: what the parser accepts does not depend on how dates are printed: a custom package-level Formatter is installed.
+	r.Phase("F: texts judged while a custom package-level Formatter (day.month.year) is installed", func() {
+		old := date.Formatter
+		defer func() { date.Formatter = old }()
+		date.Formatter = func(buf []byte, d date.Date, f date.Format) ([]byte, error) {
+			return append(buf, fmt.Sprintf("%02d.%02d.%d", d.Day(), int(d.Month()), d.Year())...), nil
+		}
+		defer setLimit(10)()
+		r.Serial(func(w *vkit.W) {
+			for _, text := range []string{"2002-08-07", "20020807", "2024-02-29", "2023-02-29", "0000-01-01", "9999-12-31", "2002-8-7", "07.08.2002", "2002-08-07x", "", "00000000", "2002-13-01", "1999-12-31"} {
+				for _, rule := range rules {
+					judge(Case{Text: vkit.B(text), Rule: rule, Limit: 10}, w)
+					w.EvalRandom(vkit.Hash64("F", text, strconv.Itoa(rule)), true)
+				}
+			}
+		})
+	})
+
 	// Phase D: rapid - random valid and near-valid texts under random configuration (shrinks to a minimal text).
 	r.Phase("D: rapid texts", func() {
 		var lim int
